@@ -1297,6 +1297,7 @@ func (e *Engine) call(st *State, x *ssa.Call) ([]*State, []Path) {
 				}
 				ns := p.St
 				ns.depth--
+				ns.events = append(ns.events, Event{Kind: "leave", Callee: callee.String(), Method: callee.Name(), Args: p.Rets, Instr: x, Fn: x.Parent(), Static: callee, Depth: len(e.stack) - 1})
 				switch len(p.Rets) {
 				case 0:
 				case 1:
